@@ -206,6 +206,10 @@ inductive DebugExpr where
   | builder (named : Bool) (ident : String) (fields : List FieldE)
 deriving Inhabited
 
+/-- the fields marked `#[debug(transparent)]` / not marked `#[debug(ignore)]` -/
+def transparentFields (fields : List FieldE) : List FieldE := fields.filter (·.h.debug.transparent)
+def shownFields (fields : List FieldE) : List FieldE := fields.filter (!·.h.debug.ignore)
+
 /-- `build_debug_expr`, decisions and where-clause -/
 def debugExpr (ident : String) (src : Fields) (fields : List FieldE) (use : Bool) (w : WCB) : R (DebugExpr × WCB) :=
   match fields.filter (·.h.debug.transparent) with
